@@ -1,6 +1,8 @@
 package main
 
 import (
+	"go/constant"
+	"regexp"
 	"fmt"
 	"go/token"
 	"go/types"
@@ -99,6 +101,54 @@ func runC13(r *Report) {
 			} else {
 				r.Ob("R-C13-5", ret.Pos(), absent || expired, "Exists answers false only for an absent map, an absent key or an expired entry", "Storage.Exists", "verdict:false")
 			}
+		}
+	}
+
+	// the embedded scripts the Redis backend evaluates follow the zero-ttl convention too: every
+	// EXPIRE / PEXPIRE in a script handed to Eval sits under an `if <x> > 0 then` guard (a script that
+	// expires a key with ttl 0 deletes it, where the memory backend stores it for ever)
+	nScripts := 0
+	for _, f := range r.P.FuncsIn(redisPkg) {
+		for _, ev := range Calls(f, false, "Eval", "EvalSha") {
+			for _, a := range ev.Common().Args {
+				k, ok := stripValue(a).(*ssa.Const)
+				if !ok || k.Value == nil || k.Value.Kind() != constant.String {
+					continue
+				}
+				script := constant.StringVal(k.Value)
+				if !strings.Contains(script, "redis.call") {
+					continue
+				}
+				nScripts++
+				var guards []bool // stack of enclosing `if` guards: true when the guard is `> 0`
+				for _, ln := range strings.Split(script, "\n") {
+					t := strings.TrimSpace(ln)
+					switch {
+					case strings.HasPrefix(t, "if ") && strings.HasSuffix(t, "then"):
+						guards = append(guards, luaPositiveGuard.MatchString(t))
+					case t == "end" && len(guards) > 0:
+						guards = guards[:len(guards)-1]
+					case strings.Contains(t, "'EXPIRE'") || strings.Contains(t, "'PEXPIRE'") || strings.Contains(t, "\"EXPIRE\"") || strings.Contains(t, "\"PEXPIRE\""):
+						under := false
+						for _, g := range guards {
+							if g {
+								under = true
+							}
+						}
+						r.Ob("R-C13-3", CallPos(ev), under, "the script sets an expiry only under a `ttl > 0` guard (line: "+t+")", r.P.FuncName(f), "script-expire-guarded")
+					}
+				}
+			}
+		}
+	}
+	if nScripts == 0 {
+		r.Fail("R-C13-3", 0, "no embedded redis script found (CompareAndSwap uses one on the reference tree)", redisPkg, "script-expire-guarded:floor")
+	}
+	// list removal removes every occurrence, as the memory backend does (LREM count 0)
+	for _, f := range r.P.FuncsIn(redisPkg) {
+		for _, lr := range Calls(f, false, "LRem") {
+			cnt, isC := ConstInt(Arg(lr, 2))
+			r.Ob("R-C13-4", CallPos(lr), isC && cnt == 0, "RemoveFromList removes all occurrences of the member (LREM count 0), like the memory backend", r.P.FuncName(f), "lrem-all")
 		}
 	}
 
@@ -741,6 +791,8 @@ func checkValueExpiryTogether(r *Report, rule string) int {
 	}
 	return n
 }
+
+var luaPositiveGuard = regexp.MustCompile(`^if\s+[A-Za-z_][A-Za-z0-9_]*\s*>\s*0\s+then$`)
 
 const redisPkg = "internal/core/storage/redis"
 
